@@ -5,26 +5,35 @@ set -u
 ROOT="$(cd "$(dirname "${BASH_SOURCE[0]}")/.." && pwd)"
 export CARGO_NET_OFFLINE=true VERIF_ROOT="$ROOT"
 MODE="${1:-quick}"
+SHUTTLE_OK=1
 build_shuttle() {
+  # The shuttle leg compiles /repo's generation.rs against a stand-in for rayon that covers only part of
+  # rayon's API. If the tree under test uses more of it, this leg cannot be built: it is skipped with a
+  # note (evidence: legs_missing) and the real-rayon legs (serial/real pools, Miri) decide alone.
   if ! (cd "$ROOT/sim" && cargo build --release --offline -p c09shuttle >"$ROOT/logs/build-c09shuttle.log" 2>&1); then
-    echo "HARNESS-ERROR: property=C09 building the shuttle leg against /repo failed (see logs/build-c09shuttle.log)"; grep -E '^(error|  -->)' "$ROOT/logs/build-c09shuttle.log" | head; exit 2
+    SHUTTLE_OK=0
+    echo "NOTE: property=C09 shuttle leg skipped: /repo does not build against the rayon stand-in (see logs/build-c09shuttle.log)"
+    grep -E '^error' "$ROOT/logs/build-c09shuttle.log" | head -3
+    rm -f "$ROOT/evidence/C09.shuttle.json"
   fi
 }
 mkdir -p "$ROOT/logs"
 case "$MODE" in
-  setup) build_shuttle; "$ROOT/tools/c09_miri.py" setup; exit $? ;;
+  setup) build_shuttle; [ $SHUTTLE_OK -eq 1 ] || exit 2; "$ROOT/tools/c09_miri.py" setup; exit $? ;;
   replay)
     FILE="$2"
     case "$FILE" in
       *.miri.json) exec "$ROOT/tools/c09_miri.py" replay "$FILE" ;;
-      *) build_shuttle; exec "$ROOT/sim/target/release/c09shuttle" --replay "$FILE" ;;
+      *) build_shuttle; [ $SHUTTLE_OK -eq 1 ] || exit 2; exec "$ROOT/sim/target/release/c09shuttle" --replay "$FILE" ;;
     esac ;;
 esac
 rc=0
 build_shuttle
-for f in "$ROOT"/replays/fixed/C09-shuttle-*.json; do [ -e "$f" ] || continue; "$ROOT/sim/target/release/c09shuttle" --replay "$f" | grep -E '^VIOLATION' && rc=1; done
-"$ROOT/sim/target/release/c09shuttle" "$MODE"; r=$?
-if [ $r -eq 1 ]; then rc=1; elif [ $r -ne 0 ]; then exit $r; fi
+if [ $SHUTTLE_OK -eq 1 ]; then
+  for f in "$ROOT"/replays/fixed/C09-shuttle-*.json; do [ -e "$f" ] || continue; "$ROOT/sim/target/release/c09shuttle" --replay "$f" | grep -E '^VIOLATION' && rc=1; done
+  "$ROOT/sim/target/release/c09shuttle" "$MODE"; r=$?
+  if [ $r -eq 1 ]; then rc=1; elif [ $r -ne 0 ]; then exit $r; fi
+fi
 "$ROOT/tools/c09_miri.py" "$MODE"; r=$?
 if [ $r -eq 1 ]; then rc=1; elif [ $r -ne 0 ]; then exit $r; fi
 "$ROOT/tools/merge_c09.py" || exit 2
